@@ -200,7 +200,7 @@ package fs
 //@   requires e != nil
 //@   modifies deref(e)
 //@   ensures[C08] len(deref(e)) % 2048 == 0 && len(deref(e)) >= old(len(deref(e))) && len(deref(e)) < old(len(deref(e))) + 2048 @padded-to-a-sector-boundary
-//@   ensures kept(e)
+//@   ensures kept(e) && ((fresh(deref(e).$arr) && base(deref(e)) == 0) || deref(e) == old(deref(e)))
 //@   ensures[C08] forall x {raw(deref(e), x)} :: 0 <= newat(e, x) && x < base(deref(e)) + len(deref(e)) ==> raw(deref(e), x) == 0 @padding-is-zero
 
 //@ func iso9660encoder.appendBytesFixed
@@ -352,10 +352,14 @@ package fs
 //@   && le16(inner(deref(e)), base(deref(e)) + n + 121) == p.LogicalBlockSize && be16(inner(deref(e)), base(deref(e)) + n + 123) == p.LogicalBlockSize
 //@   && le32(inner(deref(e)), base(deref(e)) + n + 125) == p.PathTableSize && be32(inner(deref(e)), base(deref(e)) + n + 129) == p.PathTableSize
 //@   && le32(inner(deref(e)), base(deref(e)) + n + 133) == p.TypeLPathTableLoc && be32(inner(deref(e)), base(deref(e)) + n + 141) == p.TypeMPathTableLoc
+//@ pred rangesAt(e *iso9660encoder, n int, d discRangesSector) := be32(inner(deref(e)), base(deref(e)) + n) == len(d) && (len(d) == 1 ==> be32(inner(deref(e)), base(deref(e)) + n + 8) == d[0].StartSector && be32(inner(deref(e)), base(deref(e)) + n + 12) == d[0].EndSector)
+//@ pred infoAt(e *iso9660encoder, n int, d *discInfoSector) := (forall x {raw(deref(e), x)} :: base(deref(e)) + n <= x && x < base(deref(e)) + n + len(d.ConsoleID) ==> raw(deref(e), x) == d.ConsoleID[x - base(deref(e)) - n]) && (forall x {raw(deref(e), x)} :: base(deref(e)) + n + 16 <= x && x < base(deref(e)) + n + 16 + len(d.ProductID) ==> raw(deref(e), x) == d.ProductID[x - base(deref(e)) - n - 16])
 //@ pred vdAt(e *iso9660encoder, n int, vd volumeDescriptor) := hdrAt(e, n, vd.Header) && (vd.Header.Type != 255 ==> pvdAt(e, n + 7, deref(vd.Primary)))
 //@ pred encAt(e *iso9660encoder, n int, x ref) := (typeis(x, "fs.volumeDescriptorHeader") ==> hdrAt(e, n, deref(cast(x, "fs.volumeDescriptorHeader"))))
 //@   && (typeis(x, "*fs.primaryVolumeDescriptorBody") ==> pvdAt(e, n, deref(cast(x, "fs.primaryVolumeDescriptorBody"))))
 //@   && (typeis(x, "fs.volumeDescriptor") ==> vdAt(e, n, deref(cast(x, "fs.volumeDescriptor"))))
+//@   && (typeis(x, "fs.discRangesSector") ==> rangesAt(e, n, deref(cast(x, "fs.discRangesSector"))))
+//@   && (typeis(x, "*fs.discInfoSector") ==> infoAt(e, n, cast(x, "fs.discInfoSector")))
 //@ pred encOK(x ref) := x != nil
 //@   && (typeis(x, "fs.volumeDescriptorHeader") || typeis(x, "*fs.primaryVolumeDescriptorBody") || typeis(x, "fs.volumeDescriptor") || typeis(x, "*fs.directoryEntry") || typeis(x, "fs.discRangesSector") || typeis(x, "*fs.discInfoSector"))
 //@   && (typeis(x, "*fs.primaryVolumeDescriptorBody") ==> pvdOK(cast(x, "fs.primaryVolumeDescriptorBody")))
@@ -409,8 +413,7 @@ package fs
 //@   modifies deref(enc)
 //@   let n = old(len(deref(enc)))
 //@   ensures grown(enc, 8 + 8 * len(d))
-//@   ensures[C08] be32(inner(deref(enc)), base(deref(enc)) + n) == len(d) @region-count
-//@   ensures[C08] len(d) == 1 ==> be32(inner(deref(enc)), base(deref(enc)) + n + 8) == d[0].StartSector && be32(inner(deref(enc)), base(deref(enc)) + n + 12) == d[0].EndSector @single-region-bounds
+//@   ensures[C08] rangesAt(enc, n, d) @region-count-and-single-region-bounds
 //@   loop 1 invariant len(deref(enc)) == n + 8 + 8 * $idx && ((fresh(deref(enc).$arr) && base(deref(enc)) == 0)) && be32(inner(deref(enc)), base(deref(enc)) + n) == len(d) @count-kept
 //@   loop 1 invariant (forall x {raw(deref(enc), x)} :: base(deref(enc)) <= x && x < base(deref(enc)) + n ==> raw(deref(enc), x) == old(inner(deref(enc)))[old(base(deref(enc))) + x - base(deref(enc))]) @prefix-kept
 //@   loop 1 invariant $idx >= 1 && len(d) == 1 ==> be32(inner(deref(enc)), base(deref(enc)) + n + 8) == d[0].StartSector && be32(inner(deref(enc)), base(deref(enc)) + n + 12) == d[0].EndSector @first-region
@@ -422,8 +425,7 @@ package fs
 //@   modifies deref(enc)
 //@   let n = old(len(deref(enc)))
 //@   ensures grown(enc, 512)
-//@   ensures[C08] forall x {raw(deref(enc), x)} :: 0 <= newat(enc, x) && newat(enc, x) < len(d.ConsoleID) ==> raw(deref(enc), x) == d.ConsoleID[newat(enc, x)] @console-id-first
-//@   ensures[C08] forall x {raw(deref(enc), x)} :: 16 <= newat(enc, x) && newat(enc, x) < 16 + len(d.ProductID) ==> raw(deref(enc), x) == d.ProductID[newat(enc, x) - 16] @product-id-at-16
+//@   ensures[C08] infoAt(enc, n, d) @console-id-then-product-id-at-16
 
 // ---- image builder ----------------------------------------------------------------------------------
 
@@ -445,6 +447,10 @@ package fs
 //@   tags C04,C08
 //@   trusted
 //@   ensures len(r) <= (joliet ? 2 * len(in) : len(in))
+//@ func stringD.truncate results(r)
+//@   tags C04,C08
+//@   requires maxLen >= 0
+//@   ensures len(r) <= maxLen && len(r) <= len(s) && (len(s) <= maxLen ==> r == s)
 //@ func makeIdentifier results(r)
 //@   tags C04,C08
 //@   trusted
@@ -456,6 +462,88 @@ package fs
 //@   modifies viso.volumeSizeSectors, viso.totalSize, viso.padAreaStart, viso.padAreaSize
 //@   ensures[C08] viso.totalSize == 2048 * viso.volumeSizeSectors && viso.volumeSizeSectors % 32 == 0 @whole-sectors-and-announced-size-agree
 //@   ensures[C08] viso.padAreaStart == 2048 * (filesLBA + viso.filesSizeSectors) && viso.padAreaSize >= 65536 && viso.padAreaSize < 131072 && viso.totalSize == viso.padAreaStart + viso.padAreaSize @padding-after-the-last-file
+
+// pathTable.size: sum of entry sizes, abstracted as ptSize(table) with the bounds the callers need.
+//@ spec ptBytes(arr int, off int, n int) int
+//@ func pathTable.size
+//@   tags C04,C08
+//@   trusted
+//@   ensures result == ptBytes(t.$arr, t.$off, len(t)) && 0 <= result && result <= 263 * len(t)
+
+//@ pred vdWritten(viso *VirtualISO, k int, typ int) := viso.volumeDescriptors[k].Header.Type == typ && viso.volumeDescriptors[k].Header.Identifier[0] == 'C' && viso.volumeDescriptors[k].Header.Identifier[1] == 'D' && viso.volumeDescriptors[k].Header.Identifier[2] == '0' && viso.volumeDescriptors[k].Header.Identifier[3] == '0' && viso.volumeDescriptors[k].Header.Identifier[4] == '1'
+
+//@ func VirtualISO.makeVolumeDescriptors
+//@   tags C04,C08
+//@   requires viso != nil && len(viso.rootDir) >= 1 && len(viso.rootDir[0].dirEntry) >= 1 && len(viso.rootDir[0].dirEntryJoliet) >= 1
+//@   requires 0 <= viso.volumeSizeSectors && len(viso.pathTable) <= 65535 && len(viso.pathTableJoliet) <= 65535
+//@   modifies viso.volumeDescriptors
+//@   ensures[C08] vdWritten(viso, 0, 1) && vdWritten(viso, 1, 2) && vdWritten(viso, 2, 255) @primary-supplementary-terminator
+//@   ensures[C08] viso.volumeDescriptors[0].Primary != nil && viso.volumeDescriptors[0].Primary.VolumeSpaceSize == viso.volumeSizeSectors && viso.volumeDescriptors[0].Primary.LogicalBlockSize == 2048 @primary-announces-the-volume-size
+//@   ensures[C08] viso.volumeDescriptors[1].Primary != nil && viso.volumeDescriptors[1].Primary.VolumeSpaceSize == viso.volumeSizeSectors && viso.volumeDescriptors[1].Primary.LogicalBlockSize == 2048 @supplementary-announces-the-volume-size
+//@   ensures[C08] viso.volumeDescriptors[0].Primary.TypeLPathTableLoc == 20 && viso.volumeDescriptors[0].Primary.TypeMPathTableLoc == 20 + secs(ptBytes(viso.pathTable.$arr, viso.pathTable.$off, len(viso.pathTable))) @path-table-locations
+//@   ensures[C04] len(viso.volumeDescriptors[0].Primary.VolumeIdentifier) <= 32 && len(viso.volumeDescriptors[0].Primary.VolumeSetIdentifier) <= 128 && len(viso.volumeDescriptors[1].Primary.VolumeIdentifier) <= 32 && len(viso.volumeDescriptors[1].Primary.VolumeSetIdentifier) <= 128 @identifiers-fit-their-fields
+
+//@ pred deOKv(de directoryEntry) := deSize(len(de.Identifier), len(de.SystemUse)) <= 255 && 0 <= de.ExtentLocation && 0 <= de.ExtentLength && de.ExtentLength <= 0xffffffff
+//@ pred entriesOK(s []directoryEntry) := forall z {at(s, z).Identifier} {at(s, z).ExtentLocation} {at(s, z).ExtentLength} :: base(s) <= z && z < end(s) ==> deOKv(at(s, z))
+//@ pred ptOK(t pathTable) := forall y {at(t, y).DirIdentifier} {at(t, y).DirLocation} :: base(t) <= y && y < end(t) ==> len(at(t, y).DirIdentifier) <= 255 && at(t, y).DirLocation >= 0
+//@ pred dirsOK(l dirItemList) := forall y {at(l, y).dirEntry.$arr} {at(l, y).dirEntryJoliet.$arr} :: base(l) <= y && y < end(l) ==> entriesOK(at(l, y).dirEntry) && entriesOK(at(l, y).dirEntryJoliet)
+//@ pred vdOKv(vd volumeDescriptor) := (vd.Header.Type == 1 || vd.Header.Type == 2 || vd.Header.Type == 255) && (vd.Header.Type != 255 ==> pvdOK(vd.Primary))
+// the three descriptors sit in sectors 16, 17 and 18 of the metadata buffer
+//@ pred hdrsWritten(viso *VirtualISO) := vdAt(addr(viso.fsBuf), 32768, viso.volumeDescriptors[0]) && vdAt(addr(viso.fsBuf), 34816, viso.volumeDescriptors[1]) && vdAt(addr(viso.fsBuf), 36864, viso.volumeDescriptors[2])
+// PS3 mode: sector 0 declares one plain region covering the whole volume, sector 1 starts with the console id
+//@ pred ps3Written(viso *VirtualISO) := be32(inner(viso.fsBuf), 0) == 1 && be32(inner(viso.fsBuf), 8) == 0 && be32(inner(viso.fsBuf), 12) == viso.volumeSizeSectors - 1 && bytesEq(viso.fsBuf, 2048, "PlayStation3")
+
+//@ func VirtualISO.writeFSStructures results(err)
+//@   tags C04,C08
+//@   alloc (1<<62) * 4
+//@   requires viso != nil && len(viso.fsBuf) == 0 && 1 <= viso.volumeSizeSectors && len(viso.pathTable) >= 1
+//@   requires vdOKv(viso.volumeDescriptors[0]) && vdOKv(viso.volumeDescriptors[1]) && vdOKv(viso.volumeDescriptors[2])
+//@   requires ptOK(viso.pathTable) && ptOK(viso.pathTableJoliet) && dirsOK(viso.rootDir)
+//@   modifies viso.fsBuf, iofaults, fpos[rand.Reader]
+//@   ensures iofaults >= old(iofaults)
+//@   ensures[C08] err == nil ==> len(viso.fsBuf) % 2048 == 0 && len(viso.fsBuf) >= 40960 @metadata-is-whole-sectors
+//@   ensures[C08] err == nil ==> hdrsWritten(viso) @descriptors-in-sectors-16-17-18
+//@   ensures[C08] err == nil && viso.ps3Mode ==> ps3Written(viso) @ps3-sectors-0-and-1
+//@   loop 2 invariant len(viso.fsBuf) >= 38912 && base(viso.fsBuf) == 0 && iofaults >= old(iofaults) && ($idx >= 1 ==> len(viso.fsBuf) > 38912) @shape
+//@   loop 2 invariant vdAt(addr(viso.fsBuf), 32768, viso.volumeDescriptors[0]) @descriptor-0-kept
+//@   loop 2 invariant vdAt(addr(viso.fsBuf), 34816, viso.volumeDescriptors[1]) @descriptor-1-kept
+//@   loop 2 invariant vdAt(addr(viso.fsBuf), 36864, viso.volumeDescriptors[2]) @descriptor-2-kept
+//@   loop 2 invariant viso.ps3Mode ==> ps3Written(viso) @ps3-sectors-kept
+//@   loop 3 invariant len(viso.fsBuf) >= 40960 && base(viso.fsBuf) == 0 && iofaults >= old(iofaults) @shape
+//@   loop 3 invariant vdAt(addr(viso.fsBuf), 32768, viso.volumeDescriptors[0]) @descriptor-0-kept
+//@   loop 3 invariant vdAt(addr(viso.fsBuf), 34816, viso.volumeDescriptors[1]) @descriptor-1-kept
+//@   loop 3 invariant vdAt(addr(viso.fsBuf), 36864, viso.volumeDescriptors[2]) @descriptor-2-kept
+//@   loop 3 invariant viso.ps3Mode ==> ps3Written(viso) @ps3-sectors-kept
+//@   loop 4 invariant len(viso.fsBuf) >= 40960 && base(viso.fsBuf) == 0 && iofaults >= old(iofaults) @shape
+//@   loop 4 invariant vdAt(addr(viso.fsBuf), 32768, viso.volumeDescriptors[0]) @descriptor-0-kept
+//@   loop 4 invariant vdAt(addr(viso.fsBuf), 34816, viso.volumeDescriptors[1]) @descriptor-1-kept
+//@   loop 4 invariant vdAt(addr(viso.fsBuf), 36864, viso.volumeDescriptors[2]) @descriptor-2-kept
+//@   loop 4 invariant viso.ps3Mode ==> ps3Written(viso) @ps3-sectors-kept
+//@   loop 5 invariant len(viso.fsBuf) >= 40960 && base(viso.fsBuf) == 0 && iofaults >= old(iofaults) @shape
+//@   loop 5 invariant vdAt(addr(viso.fsBuf), 32768, viso.volumeDescriptors[0]) @descriptor-0-kept
+//@   loop 5 invariant vdAt(addr(viso.fsBuf), 34816, viso.volumeDescriptors[1]) @descriptor-1-kept
+//@   loop 5 invariant vdAt(addr(viso.fsBuf), 36864, viso.volumeDescriptors[2]) @descriptor-2-kept
+//@   loop 5 invariant viso.ps3Mode ==> ps3Written(viso) @ps3-sectors-kept
+//@   loop 6 invariant len(viso.fsBuf) >= 40960 && base(viso.fsBuf) == 0 && iofaults >= old(iofaults) && len(viso.fsBuf) % 2048 == 0 @shape
+//@   loop 6 invariant vdAt(addr(viso.fsBuf), 32768, viso.volumeDescriptors[0]) @descriptor-0-kept
+//@   loop 6 invariant vdAt(addr(viso.fsBuf), 34816, viso.volumeDescriptors[1]) @descriptor-1-kept
+//@   loop 6 invariant vdAt(addr(viso.fsBuf), 36864, viso.volumeDescriptors[2]) @descriptor-2-kept
+//@   loop 6 invariant viso.ps3Mode ==> ps3Written(viso) @ps3-sectors-kept
+//@   loop 7 invariant len(viso.fsBuf) >= 40960 && base(viso.fsBuf) == 0 && iofaults >= old(iofaults) @shape
+//@   loop 7 invariant vdAt(addr(viso.fsBuf), 32768, viso.volumeDescriptors[0]) @descriptor-0-kept
+//@   loop 7 invariant vdAt(addr(viso.fsBuf), 34816, viso.volumeDescriptors[1]) @descriptor-1-kept
+//@   loop 7 invariant vdAt(addr(viso.fsBuf), 36864, viso.volumeDescriptors[2]) @descriptor-2-kept
+//@   loop 7 invariant viso.ps3Mode ==> ps3Written(viso) @ps3-sectors-kept
+//@   loop 8 invariant len(viso.fsBuf) >= 40960 && base(viso.fsBuf) == 0 && iofaults >= old(iofaults) && len(viso.fsBuf) % 2048 == 0 @shape
+//@   loop 8 invariant vdAt(addr(viso.fsBuf), 32768, viso.volumeDescriptors[0]) @descriptor-0-kept
+//@   loop 8 invariant vdAt(addr(viso.fsBuf), 34816, viso.volumeDescriptors[1]) @descriptor-1-kept
+//@   loop 8 invariant vdAt(addr(viso.fsBuf), 36864, viso.volumeDescriptors[2]) @descriptor-2-kept
+//@   loop 8 invariant viso.ps3Mode ==> ps3Written(viso) @ps3-sectors-kept
+//@   loop 9 invariant len(viso.fsBuf) >= 40960 && base(viso.fsBuf) == 0 && iofaults >= old(iofaults) @shape
+//@   loop 9 invariant vdAt(addr(viso.fsBuf), 32768, viso.volumeDescriptors[0]) @descriptor-0-kept
+//@   loop 9 invariant vdAt(addr(viso.fsBuf), 34816, viso.volumeDescriptors[1]) @descriptor-1-kept
+//@   loop 9 invariant vdAt(addr(viso.fsBuf), 36864, viso.volumeDescriptors[2]) @descriptor-2-kept
+//@   loop 9 invariant viso.ps3Mode ==> ps3Written(viso) @ps3-sectors-kept
 
 // ---- generated image: data-structure invariant and abstract view (C09, C07, C04) ----------------
 //
